@@ -9,6 +9,8 @@ delays" and "which of clock thread and script thread moves next" are seeded
 scheduling choices.  A probe on the machine's Clock instance records the
 virtual instants of pause_for / wait_until / reset calls and, at every tick,
 the set of threads waiting on the event.  Rules (logical events only):
+  T0  the time line is started (reset) when the script starts, before its
+      first instruction, not when the first delay is met
   T1  pause_for k returns (not stopped) at virtual time < due_k, where
       due_k = origin + d_1 + ... + d_k and origin = instant of the last reset
   T2  a tick at virtual time >= due_k found the script thread waiting, and
@@ -148,15 +150,38 @@ def run_case(seed, script, tick, policy, depth, max_steps=200000, runs=1,
         vsys.ClockProbe(job._machine._clock, events)
         execute = job.execute
 
+        first = {'pending': False}
+
         def probed_execute():
             events.append(('run_start', s.vnow))
+            first['pending'] = True
             return execute()
         job.execute = probed_execute
+        # the first instruction of every run, as an event: by then the time
+        # line has to be running (T0)
+        table = job._machine._fn_table
+
+        def stepped(fn):
+            def step():
+                if first['pending']:
+                    first['pending'] = False
+                    events.append(('first_instruction', s.vnow))
+                fn()
+            return step
+        for op in list(table):
+            table[op] = stepped(table[op])
         jc = job_control.JobControl()
         if companion is not None:
             # another script with its own delays, running alongside as a
-            # background job: every machine keeps its own time line
+            # background job: every machine keeps its own time line -- also
+            # when the other job is stopped or comes to its end
             jc.spawn_job(ScriptJob.from_string(COMPANIONS[companion]), 'bg')
+            if seed % 3 == 0:
+                def stopper():
+                    for _ in range(seed % 97 + 5):
+                        s.switch('stopper')
+                    jc.stop_job('bg')
+                sched.ShimThread(target=stopper, name='stopper').start()
         for _ in range(runs):
             # (a further run of the same job object starts the moment the
             # previous one has ended: its clock thread may still be around)
@@ -229,6 +254,14 @@ def check_rules(ctx, out, expected, replay, script):
             # every run has its own time line: nothing is due before the
             # clock has been started again
             origin = due = None
+        elif kind == 'first_instruction':
+            if origin is None:
+                ctx.violation('T0:time-line-not-started-with-the-script',
+                              'the first instruction runs at {:.4f} and the '
+                              'clock has not been started: work done before '
+                              'the first delay would not count | {}'.format(
+                                  t, script), replay)
+                return False
         elif kind == 'reset':
             origin = t
             due = t
